@@ -48,6 +48,7 @@ func init() {
 			problems = append(problems, conc.FirstUseStress(*seed, *rounds)...)
 			problems = append(problems, conc.DenyStress(*seed, *rounds/4+200)...)
 			problems = append(problems, conc.SharedRemoveStress(*seed, *rounds/10+100)...)
+			problems = append(problems, conc.AtomicityStress(*seed, *rounds/20+150)...)
 		}
 		if problems == nil {
 			problems = []conc.Problem{}
